@@ -59,6 +59,14 @@ class Recorder:
             return str(p)
 
 
+def _faults(inject: dict, key: str) -> list[dict]:
+    """an injection is one fault or a list of faults of that kind"""
+    v = inject.get(key)
+    if not v:
+        return []
+    return list(v) if isinstance(v, (list, tuple)) else [v]
+
+
 def _read(p) -> bytes | None:
     try:
         return Path(p).read_bytes()
@@ -196,14 +204,14 @@ def install() -> None:
         _tls.file = (rel, self.id)
         _tls.nodes = 0
         try:
-            fault = inj.get("raise_in_process_file", {})
-            if fault and (fault.get("c") in (None, self.id)) and fault.get("f") == rel:
-                raise InjectedFault("injected by harness in _process_file")
-            vanish = inj.get("vanish", {})
-            if vanish and (vanish.get("c") in (None, self.id)) and vanish.get("f") == rel:
-                with contextlib.suppress(OSError):
-                    os.unlink(filename)
-                    rec.emit("EnvChange", f=rel, post="absent")
+            for fault in _faults(inj, "raise_in_process_file"):
+                if (fault.get("c") in (None, self.id)) and fault.get("f") == rel:
+                    raise InjectedFault("injected by harness in _process_file")
+            for vanish in _faults(inj, "vanish"):
+                if (vanish.get("c") in (None, self.id)) and vanish.get("f") == rel:
+                    with contextlib.suppress(OSError):
+                        os.unlink(filename)
+                        rec.emit("EnvChange", f=rel, post="absent")
             fc = orig_pf(self, filename, context, results, rules)
             return fc
         except BaseException as e:  # noqa: BLE001
@@ -263,9 +271,9 @@ def install() -> None:
             d = rec.inject.get("delay_transform", {}).get(rec.rel(file_context.file_path))
             if d:
                 time.sleep(d)
-            fault = rec.inject.get("raise_in_transform", {})
-            if fault and fault.get("f") == rec.rel(file_context.file_path) and fault.get("c") in (None, rec.cur_codemod):
-                raise InjectedFault("injected by harness in transform")
+            for fault in _faults(rec.inject, "raise_in_transform"):
+                if fault.get("f") == rec.rel(file_context.file_path) and fault.get("c") in (None, rec.cur_codemod):
+                    raise InjectedFault("injected by harness in transform")
         return orig_transform(cls, module, results, file_context)
 
     libcst_transformer.LibcstResultTransformer.transform = classmethod(transform)
@@ -278,9 +286,9 @@ def install() -> None:
     def on_visit(self, node):
         rec = _active
         if rec is not None:
-            fault = rec.inject.get("raise_at_node")
             cur = getattr(_tls, "file", None)
-            if fault and cur and cur[0] == fault.get("f") and fault.get("c") in (None, cur[1]) and isinstance(self, libcst_transformer.LibcstResultTransformer):
+            fault = next((x for x in _faults(rec.inject, "raise_at_node") if cur and cur[0] == x.get("f") and x.get("c") in (None, cur[1])), None)
+            if fault and isinstance(self, libcst_transformer.LibcstResultTransformer):
                 _tls.nodes = getattr(_tls, "nodes", 0) + 1
                 if fault.get("n") == "after-first-change":
                     # the first node visited after the transformer recorded a change
